@@ -91,5 +91,7 @@ def c09(ck, replay=None):
     ck.assumptions += ['virtual time: every thread step is instantaneous, the clock moves only when nothing can run '
                        '(so the wait bound is checked exactly, not with tolerances)',
                        'thread workers over _SimpleThreadQueue; process workers share the same Worker code']
+    from checks.extras import singlelane_component
+    singlelane_component(ck)
     ck.finish_rc = ck.finish(rule='arrival schedules (gaps 0..3 ticks, genuine / exception value / preprocess-rejected) x '
                              'batch_size 0..3 x batch_wait_time 0..3 ticks x 1-2 competing workers x schedule seeds')
